@@ -395,7 +395,7 @@ class _PmatrxNuclideIO:
         elif order == 2:
             return self._nuclide.linearAnisotropicProduction
         else:
-            return self._nuclide.nOrderProductionMatrix[order]
+            return self._nuclide.nOrderProductionMatrix.get(order)
 
     def _setProductionMatrix(self, order, matrix):
         if order == 1:
